@@ -42,6 +42,19 @@ func fed(name string) GenSpec {
 	}
 }
 
+// probe: a configuration owned by the framework (/verif/probes/<name>), copied into the snapshot as verif_probes/<name>.
+func probe(name string) GenSpec {
+	return GenSpec{
+		GenConfig: pipeline.GenConfig{
+			Name:   "probe-" + name,
+			Dir:    "verif_probes/" + name,
+			Config: "gqlgen.yml",
+			Schema: []string{"graph/*.graphqls"},
+		},
+		ExecPkg: "verif_probes/" + name + "/graph",
+	}
+}
+
 // GenSet lists the configurations for a tier.
 func GenSet(tier string) []GenSpec {
 	wl := map[string]string{"exec.worker_limit": "2"}
@@ -51,6 +64,7 @@ func GenSet(tier string) []GenSpec {
 		testserver("singlefilewl", "singlefile", wl),
 		fed("entityresolver"),
 		fed("explicitrequires"),
+		probe("customroots"),
 	}
 	if tier == "thorough" {
 		set = append(set,
